@@ -121,6 +121,8 @@ type Sim struct {
 	KillInc  int
 	OnKill   func(inc int)
 	dead     map[int]bool
+	exited   map[int]bool
+	stalled  map[int]bool
 
 	Panics  []PanicRec
 	OnPanic func(p PanicRec)
@@ -145,6 +147,8 @@ func New(ch *Choices) *Sim {
 		Ch:        ch,
 		back:      make(chan struct{}),
 		dead:      map[int]bool{},
+		exited:    map[int]bool{},
+		stalled:   map[int]bool{},
 		MaxSteps:  3_000_000,
 		SwitchDen: 4,
 		epoch:     time.Date(2026, 1, 1, 0, 0, 0, 0, time.UTC).UnixNano(),
@@ -239,6 +243,39 @@ func FatalExit(msg string) {
 	call(func() { s.recordPanic(rec) })
 	// unreachable: recordPanic killed this task's incarnation
 	select {}
+}
+
+// ProcessExit: main returned / os.Exit(0): the incarnation ends here, every
+// other goroutine of it dies with the process. Never returns.
+//
+//go:norace
+func ProcessExit() {
+	s := S
+	t := Cur()
+	if s == nil || t == nil {
+		return
+	}
+	inc := t.Inc
+	call(func() {
+		s.Logf("EXIT inc=%d", inc)
+		s.exited[inc] = true
+		s.killInc(inc)
+	})
+	select {}
+}
+
+// Exited: the incarnation ended through ProcessExit (not a crash, not a kill).
+func (s *Sim) Exited(inc int) bool { return s.exited[inc] }
+
+// Stall freezes every task of an incarnation for d of virtual time (VM pause,
+// GC storm, SIGSTOP) while the environment keeps running.
+func (s *Sim) Stall(inc int, d time.Duration) {
+	s.stalled[inc] = true
+	s.Logf("STALL inc=%d for %v", inc, d)
+	s.After(d, func() {
+		delete(s.stalled, inc)
+		s.Logf("RESUME inc=%d", inc)
+	})
 }
 
 type killedSentinel struct{}
@@ -549,13 +586,13 @@ func (s *Sim) runTask(t *Task) {
 func (s *Sim) candidates() []*Task {
 	var c []*Task
 	for _, t := range s.tasks {
-		if t.state == stRunnable {
+		if t.state == stRunnable && !s.stalled[t.Inc] {
 			c = append(c, t)
 		}
 	}
 	if len(c) == 0 {
 		for _, t := range s.tasks {
-			if t.state == stBlocked && t.dirty {
+			if t.state == stBlocked && t.dirty && !s.stalled[t.Inc] {
 				c = append(c, t)
 			}
 		}
